@@ -380,7 +380,7 @@ func init() {
 		Explanation: "Every control-stream decoder (readControlMessage and the nine read* it dispatches to, readControlHeader, the legacy RecvManifest/readRelPath and RecvFile headers) is executed symbolically on an input buffer of N fully symbolic bytes behind an in-memory stream that reports EOF at its end; the data-stream side is covered by running the real RecvManifestMultiStream (goroutines as symbolic threads) with arbitrary bytes on the data stream after a FileBegin whose chunk size is 4, 0 or huge. " +
 			"Outcomes decided by the solver per path: a Go panic (index, slice, nil, type assertion, divide, negative make) is a violation; a blocked operation is a violation; every make() whose size is a function of input bytes must satisfy bytes <= 64 MiB + 2N for all inputs (sat = concrete hostile message). Counterexamples replay natively (panic, or runtime.MemStats.TotalAlloc delta). C15.frame / C15.frame-stray: one arbitrary frame (any index, length, CRC class; right or unknown key; before or after the file is complete) with one preemption of the main loop at a select: additionally a malformed frame is rejected and success implies a file of the announced length. C15.records: up to 3 (thorough 4) well-formed control records in arbitrary order, then end of stream. C15.sender-control(-silent): the real sender with N arbitrary bytes as the receiver's side of the control stream (canonical schedule): it comes back, and reports success only if the bytes were an acknowledgement of its file.",
 		Rule:        "assertion sites: vAssert lines of H_C15_* plus one allocation obligation per make() site whose size depends on input",
-		Assumptions: []string{"input length N case-split 0..24 (quick) / 0..48 (thorough)", "after an input-sized allocation the path is followed for lengths 0..4 (quick) / 0..8 (thorough) elements; longer ones end at the allocation (reported as outside_bound)", "JSON body of the manifest is opaque (Unmarshal: arbitrary outcome)", "the stream returns EOF at the end of the buffer (no stalling peer)"},
+		Assumptions: []string{"input length N case-split 0..24 for control records, 0..16 for the headers and legacy record bodies, 0..20 for the legacy file header (both tiers)", "after an input-sized allocation the path is followed for lengths 0..4 (quick) / 0..8 (thorough; 0..4 for the legacy record bodies) elements; longer ones end at the allocation (reported as outside_bound)", "JSON body of the manifest is opaque (Unmarshal: arbitrary outcome)", "the stream returns EOF at the end of the buffer (no stalling peer)"},
 		Bounds: func(tier string) string {
 			if tier == "thorough" {
 				return "N <= 48 input bytes; input-sized allocations followed up to 8 elements"
@@ -448,7 +448,7 @@ func init() {
 				}
 				j.HangIsViolation = true
 				j.MaxSteps = 400000
-				if tier == "thorough" {
+				if tier == "thorough" && j.ID != "C15.recvmanifest-body" {
 					j.MaxSymAlloc = 8
 				}
 			}
@@ -491,9 +491,9 @@ func init() {
 			}
 			js := []*Job{tr, hj("C01.streamid", "H_C01_streamid", "virtual stream ids are injective"), sb, ee, ep}
 			if tier == "thorough" {
-				pr := hj("C01.tree-preempt", "H_C01_tree", "healthy scripted sender, schedules with one preemption of a goroutine at a select")
+				pr := hj("C01.tree-preempt", "H_C01_tree", "healthy scripted sender, canonical schedule plus every placement of two preemptions at a select")
 				pr.Threads, pr.TimersNeverFire, pr.Workers, pr.MaxPaths = true, true, 16, 5000000
-				pr.Preempt, pr.PreemptAt = 1, "select"
+				pr.Preempt, pr.PreemptAt, pr.CanonicalBlock = 2, "select", true
 				js = append(js, pr)
 			}
 			return js
@@ -551,9 +551,9 @@ func init() {
 			tf.CancelOnlyIdle, tf.BlockedOK = true, true // with a silent sender waiting is correct; the caller cancels once everybody waits
 			js := []*Job{r, sn, sc, ob, so, el, ec, tf}
 			if tier == "thorough" {
-				pr := hj("C02.receiver-preempt", "H_C02_receiver", "faulty scripted sender, schedules with one preemption of a goroutine at a select")
+				pr := hj("C02.receiver-preempt", "H_C02_receiver", "faulty scripted sender, canonical schedule plus every placement of two preemptions at a select")
 				pr.Threads, pr.TimersNeverFire, pr.Workers, pr.MaxPaths = true, true, 16, 5000000
-				pr.Preempt, pr.PreemptAt = 1, "select"
+				pr.Preempt, pr.PreemptAt, pr.CanonicalBlock = 2, "select", true
 				js = append(js, pr)
 			}
 			return js
@@ -567,7 +567,7 @@ func init() {
 		Explanation: "Partial (no wall-clock liveness, no QUIC): (a) every legal relative path of up to 6 arbitrary bytes (non-empty, not absolute, no '..' segment, no NUL) is accepted by validateRelPath - the sender refuses other names, so rejecting a legal one makes a valid tree untransferable; (b) the real RecvManifestMultiStream runs from its entry as symbolic threads against a scripted sender that resumes a transfer: resume metadata with a symbolic bitmap is on disk, the sender asks for the report, sends what is missing plus a duplicate of a chunk that is already there, possibly after the file is complete; under every schedule at blocking points the call must return success - a state in which every goroutine is blocked (waiting for a stream, message or chunk that will not come) is a violation; (c) the healthy small-tree transfer of C01.tree (directory, zero-length file, fewer chunks than streams) likewise. Scheduler fairness, stream budgets and the blocking accept of announced data streams over QUIC are outside. C03.endtoend: edge tree shapes (empty manifest, directory only, zero-length file only, one 1-byte file on four streams, two files on two streams; resume on/off) between the real sender and the real receiver in one symbolic execution (canonical schedule; thorough: plus one preemption): both come back with success and the tree is the announced one.",
 		Rule:        "assertion sites: vAssert lines of H_C03_names, vC04Resume plus the no-deadlock obligation per path",
 		Assumptions: []string{"timers never fire; in-memory streams report EOF at their end", "threads that only write acknowledgements or hash a chunk commute with all others and are scheduled eagerly (partial-order reduction)", "marked chunks on disk equal the source (C05)"},
-		Bounds:      func(tier string) string { return "names <= 6 bytes; resumed file of 5 bytes (quick) / 5, 8 (thorough) in 4-byte chunks, all bitmaps, duplicate of chunk 0 before the missing chunks (quick) / any chunk before or after (thorough)" },
+		Bounds:      func(tier string) string { return "names <= 6 bytes; resumed file of 5 bytes in 4-byte chunks, all bitmaps, duplicate of chunk 0 before the missing chunks (quick) / any chunk before or after (thorough)" },
 		Jobs: func(tier string, prog *ssa.Program) []*Job {
 			n := hj("C03.names", "H_C03_names", "legal names are accepted")
 			n.MaxSymAlloc = 8
@@ -613,7 +613,7 @@ func init() {
 		Explanation: "Partial: the second run of an interrupted transfer at small scale, plus the sender's plan. (a) The real RecvManifestMultiStream runs from its entry (goroutines as symbolic threads) with resume metadata and a partial file on disk - symbolic bitmap, marked chunks equal to the source as C05 guarantees - against a scripted sender that requests the report and sends exactly the chunks the bitmap does not mark (plus a duplicate): the call succeeds, the file equals the source, and every FileResumeInfo the receiver wrote carries the bitmap found on disk, the file's chunk count and the highest marked chunk as verification point. (b) The sender's real applyResumeInfo closure and nextChunkToSend (C17.plan obligation, re-run here): a chunk is skipped only if reported present below the verification point, every unset chunk is sent, the verification tail and a mismatching hash are re-sent. Every kill point leaving a sound disk state is C05; chains of interrupted runs follow by induction over runs (paper step). (c) C04.endtoend: the second run with both real endpoints - the real sender plans from what the real receiver reports - for every bitmap and an intact, shortened or missing data file; (d) C04.chain: run 1 is interrupted by a connection loss at the n-th write of a stream, run 2 resumes from whatever run 1 left on disk, both runs with both real endpoints: run 2 succeeds on both sides and the file equals the source.",
 		Rule:        "assertion sites: vAssert lines of vC04Resume and the engine-side assertions of the plan closure unit",
 		Assumptions: []string{"C04.endtoend / C04.chain: canonical schedule, timers never fire / fire once; interruption kind of the chain is connection loss (process kill points are the C05 crash cuts)", "marked chunks on disk equal the source (established by C05)", "timers never fire; threads that only write acknowledgements or hash a chunk are scheduled eagerly", "composition over repeated interruptions is a paper step"},
-		Bounds:      func(tier string) string { return "file of 5 bytes (quick) / 5, 8 (thorough), chunk size 4, all bitmaps; plan: <= 3 (quick) / 5 (thorough) chunks" },
+		Bounds:      func(tier string) string { return "file of 5 bytes, chunk size 4 (end-to-end obligations: 5, 8, 9 bytes in the thorough tier), all bitmaps; plan: <= 3 (quick) / 5 (thorough) chunks" },
 		Jobs: func(tier string, prog *ssa.Program) []*Job {
 			r := hj("C04.resume", "H_C04_resume", "resumed transfer: report equals disk metadata, result identical")
 			if tier == "thorough" {
